@@ -116,6 +116,13 @@ class ExecRun:
     def step(self, tick):
         """tick: dict(susp=[(cid, pool)], asg=[(ops, cpu, ram, prio, pool)]). Returns the trace entry."""
         ent = dict(cmd=tick, err=0, pre_states=None)
+        if self.r.get('peek'):
+            # what every scheduler does before deciding: list the assignable operators of every pipeline, with and
+            # without the parents filter. These are queries: they must not change what the executor does next.
+            from eudoxia.workload.runtime_status import ASSIGNABLE_STATES
+            for p in self.w.pipes:
+                p.runtime_status().get_ops(ASSIGNABLE_STATES, require_parents_complete=False)
+                p.runtime_status().get_ops(ASSIGNABLE_STATES, require_parents_complete=True)
         try:
             asgs = []
             for a in tick['asg']:
@@ -484,6 +491,8 @@ def gen_history(rng, gen='G-exec', overcommit=None, max_ticks=None, p_bad=0.3, b
                 p_inflight=None):
     cfg = gen_config(rng, overcommit)
     cfg['gen'] = gen
+    if rng.random() < 0.3:
+        cfg['peek'] = 1
     if p_inflight is not None:
         cfg['p_inflight'] = p_inflight
         cfg['multi'] = 1
